@@ -56,6 +56,9 @@ class C10World(object):
     # ------------------------------------------------------------------
     def generate(self, rng, tier, idx):
         size = rng.choice([4, 8, 12, 12])
+        marathon = rng.random() < 0.02
+        if marathon:
+            size = rng.choice([30, 60])         # many distinct strings: cache growth, delayed effects
         alpha = F.make_alphabet(rng, size=size, depth=rng.choice([1, 2, 3]))
         fault_free = rng.random() < 0.4
         rates = {'F1': 0.0, 'F3': 0.0, 'F6': 0.0}
@@ -66,6 +69,8 @@ class C10World(object):
         n_graders = rng.choice([0, 0, 1, 2])
         graders = [rng.randrange(len(GRADER_CFGS)) for _ in range(n_graders)]
         n_ev = rng.randint(2, 12) if tier == 'quick' or rng.random() < 0.7 else rng.randint(12, 40)
+        if marathon:
+            n_ev = rng.randint(150, 400)
         events = []
         for _ in range(n_ev):
             r = rng.random()
